@@ -156,15 +156,23 @@ func (scp *Scope) preventDoubleClosed() {
 // Kill scope
 func (scp *Scope) Kill() {
 	scp.preventClosed()
+	// the done signal fires inside the next call: whoever waits for it may close the scope
+	// (close drops the event scope) while this call is still running
+	events := scp.EventScope
 	scp.ContextScope.Kill()
-	scp.appendError(scp.Trigger(app.KillEvent, nil))
+	if events != nil {
+		scp.appendError(events.Trigger(app.KillEvent, nil))
+	}
 }
 
 // Stop scope
 func (scp *Scope) Stop() {
 	scp.preventClosed()
+	events := scp.EventScope
 	scp.ContextScope.Stop()
-	scp.appendError(scp.Trigger(app.StopEvent, nil))
+	if events != nil {
+		scp.appendError(events.Trigger(app.StopEvent, nil))
+	}
 }
 
 // AppendError add an error to the scope
@@ -189,8 +197,13 @@ func (scp *Scope) appendError(errs ...error) {
 		return
 	}
 	filtred = filtred[:i]
+	// read the event scope before the error is recorded: recording it fires the done signal, and
+	// a goroutine released by that signal may close the scope before the event has been triggered
+	events := scp.EventScope
 	scp.ContextScope.AppendError(filtred...)
-	scp.ContextScope.AppendError(scp.Trigger(app.ErrorEvent, filtred))
+	if events != nil {
+		scp.ContextScope.AppendError(events.Trigger(app.ErrorEvent, filtred))
+	}
 }
 
 // Err return cumulative error if the scope context contains any error
